@@ -134,6 +134,10 @@ CHECKS.update({
         level='other', technique='abstract round trip through the IR (symbolic model -> serializer -> registered parser) and through the abstract byte file (builder -> bytes -> independent decoder / package reader); the term domain tracks the unit bare numbers are expressed in',
         text='Static: unit-carrying metadata fields come back with the physical value supplied (writer unit == reader label), 1-based indices are undone, integer metadata is converted in float64; for pixel counts / chunk sizes below, equal and above each other and the row count, pixel p row r on disk is float32(row r of pixel p converted to the declared unit) as an exact term, metadata holds N and per-row (min, max); containers hold one shared object referenced once per run (1-based); run ids + 1, meV, rad, angstrom/deg and the declared histogram units and shape on disk; Sqw.read_data_block returns models equal to those supplied with units of the same dimension.',
         note='Horace compatibility and float formatting not decided', ref='8'),
+    'C14': dict(
+        level='other', technique='finite-domain evaluation of the quoting/layout decision code in the abstract interpreter with an independent CIF 1.1 lexer as oracle; witness-guided interpretation of the loop builders and of save_cif with a text sink; known-findings list',
+        text='Static, finite decision space enumerated: the writer (Chunk.write, Loop.write, _format_value, _quotes_for_string_value, _write_comment, name setter) is folded over all strings up to length 3 (thorough: 4) from an alphabet with one representative per CIF 1.1 character class plus the reserved words; every produced fragment must be read by an independent CIF 1.1 lexer as exactly the supplied value(s); output is ASCII; comments never leak; save_cif starts the file with the CIF 1.1 magic line; the powder and calibration loops hold values in value columns and sqrt(variances) in _su columns (only when variances exist) as exact terms; author ids unique and role ids resolvable. One known finding (text field containing a line starting with ;).',
+        note='trusts spec/cif11.py; number formatting is str(float); tags are outside the value quantifier', ref='3 C14, 9'),
     'C15': dict(
         level='other', technique='finite-domain interpretation of io/xye.py with recording stubs for numpy.savetxt/loadtxt over every combination of (variances, ndim, masks, coordinate set and alignment, bin edges, coord argument, header argument); symbolic table columns',
         text='Static: every documented refusal raises before anything is handed to savetxt or written and every accepted input is saved by exactly one savetxt call; the table saved has the columns (selected coordinate values, data values, sqrt(variances)) as exact terms; >=17 significant digits, one-character delimiter the loader splits on, comments untouched, header through savetxt; the coordinate selected is the documented one irrespective of alignment flags; load_xye returns column 1, column 2 squared, column 0 and one-row files load as 1-d columns.',
